@@ -140,6 +140,28 @@ type SOpts struct {
 	Async         time.Duration
 	KeepEvents    bool
 	MaxEvents     int
+	// Reuse: parse with long-lived Parser/TokenStream/Lexer objects shared by all Reuse runs of this
+	// process (re-initialised through Init before each parse), instead of fresh ones.
+	Reuse bool
+}
+
+var shared struct {
+	jsS   js.TokenStream
+	jsP   js.Parser
+	tmS   tm.TokenStream
+	tmP   tm.Parser
+	testL test.Lexer
+	testP test.Parser
+	jsonL json.Lexer
+	jsonP json.Parser
+}
+
+// ResetShared replaces the long-lived objects by fresh ones (start of a case).
+func ResetShared() {
+	shared.jsS, shared.jsP = js.TokenStream{}, js.Parser{}
+	shared.tmS, shared.tmP = tm.TokenStream{}, tm.Parser{}
+	shared.testL, shared.testP = test.Lexer{}, test.Parser{}
+	shared.jsonL, shared.jsonP = json.Lexer{}, json.Parser{}
 }
 
 // ShippedEntries lists the entry points per shipped parser.
@@ -214,54 +236,60 @@ func RunShipped(text string, o SOpts) (res *SRun) {
 	var err error
 	switch o.Parser {
 	case "js":
-		var s js.TokenStream
-		var p js.Parser
+		s, p := new(js.TokenStream), new(js.Parser)
+		if o.Reuse {
+			s, p = &shared.jsS, &shared.jsP
+		}
 		l := func(nt js.NodeType, offset, endoffset int) { record(nt.String(), 0, offset, endoffset) }
 		s.Init(text, l)
-		curOff = streamLexerOffset(&s)
+		curOff = streamLexerOffset(s)
 		s.SetDialect(js.Dialect(o.Dialect))
 		p.Init(func(se js.SyntaxError) bool { return onErr(se.Line, se.Offset, se.Endoffset) }, l)
 		switch o.Entry {
 		case 0:
-			err = p.ParseModule(ctx, &s)
+			err = p.ParseModule(ctx, s)
 		case 1:
-			err = p.ParseTypeSnippet(ctx, &s)
+			err = p.ParseTypeSnippet(ctx, s)
 		case 2:
-			err = p.ParseExpressionSnippet(ctx, &s)
+			err = p.ParseExpressionSnippet(ctx, s)
 		default:
-			err = p.ParseNamespaceNameSnippet(ctx, &s)
+			err = p.ParseNamespaceNameSnippet(ctx, s)
 		}
 		if se, ok := err.(js.SyntaxError); ok {
 			res.ErrKind, res.S, res.E = "syntax", se.Offset, se.Endoffset
 		}
 	case "tm":
-		var s tm.TokenStream
-		var p tm.Parser
+		s, p := new(tm.TokenStream), new(tm.Parser)
+		if o.Reuse {
+			s, p = &shared.tmS, &shared.tmP
+		}
 		l := func(nt tm.NodeType, offset, endoffset int) { record(nt.String(), 0, offset, endoffset) }
 		s.Init(text, l)
-		curOff = streamLexerOffset(&s)
+		curOff = streamLexerOffset(s)
 		p.Init(func(se tm.SyntaxError) bool { return onErr(se.Line, se.Offset, se.Endoffset) }, l)
 		if o.Entry == 0 {
-			err = p.ParseFile(ctx, &s)
+			err = p.ParseFile(ctx, s)
 		} else {
-			err = p.ParseNonterm(ctx, &s)
+			err = p.ParseNonterm(ctx, s)
 		}
 		if se, ok := err.(tm.SyntaxError); ok {
 			res.ErrKind, res.S, res.E = "syntax", se.Offset, se.Endoffset
 		}
 	case "test":
-		var lx test.Lexer
-		var p test.Parser
+		lx, p := new(test.Lexer), new(test.Parser)
+		if o.Reuse {
+			lx, p = &shared.testL, &shared.testP
+		}
 		lx.Init(text)
 		curOff = func() int { o, _ := lx.Pos(); return o }
 		p.Init(func(nt test.NodeType, flags test.NodeFlags, offset, endoffset int) {
 			record(nt.String(), int(flags), offset, endoffset)
 		})
 		if o.Entry == 0 {
-			err = p.ParseTest(ctx, &lx)
+			err = p.ParseTest(ctx, lx)
 		} else {
 			var v int
-			v, err = p.ParseDecl1(ctx, &lx)
+			v, err = p.ParseDecl1(ctx, lx)
 			if err == nil {
 				res.Val = fmt.Sprint(v)
 			}
@@ -270,11 +298,13 @@ func RunShipped(text string, o SOpts) (res *SRun) {
 			res.ErrKind, res.S, res.E = "syntax", se.Offset, se.Endoffset
 		}
 	case "json":
-		var lx json.Lexer
-		var p json.Parser
+		lx, p := new(json.Lexer), new(json.Parser)
+		if o.Reuse {
+			lx, p = &shared.jsonL, &shared.jsonP
+		}
 		lx.Init(text)
 		p.Init(func(nt json.NodeType, offset, endoffset int) { record(nt.String(), 0, offset, endoffset) })
-		err = p.Parse(&lx)
+		err = p.Parse(lx)
 		if se, ok := err.(json.SyntaxError); ok {
 			res.ErrKind, res.S, res.E = "syntax", se.Offset, se.Endoffset
 		}
